@@ -372,7 +372,13 @@ def gen_timeline(r: Any, domain: str = "ints", maxlen: int = 6, start: float = 0
     out = []
     for _ in range(n):
         t += r.choice(steps)
-        out.append((t, "N", gen_value(r, domain, uniq)))
+        if out and domain in ("falsy", "hfalsy", "dups") and r.random() < 0.25:
+            # contiguous runs of one value (None, 0, "" ... included): what de-duplicating and comparing operators key on
+            v = out[-1][2]
+            v = type(v)() if isinstance(v, (list, dict)) and not v else v
+        else:
+            v = gen_value(r, domain, uniq)
+        out.append((t, "N", v))
     if term == "auto":
         term = r.choice(["C", "C", "C", "E", None])
     t += r.choice(steps)
